@@ -5,6 +5,8 @@ import (
 	"os"
 	"path/filepath"
 	"strings"
+
+	"github.com/nlnwa/whatwg-url/url"
 )
 
 // WPT vectors of the repository (inputs/bases only are used as seeds; expectations are used for model validation)
@@ -104,6 +106,13 @@ func famParseSpec(c *Ctx, n int) {
 		}
 		io := c.cmpParse(d, defaultCfg, base, input, allFields, true, "parse", i)
 		c.checkAgainstSpec(sd, base, input, io, "parse", i)
+		if i >= len(wpt) && i%8 == 0 {
+			// the same input alone, against two bases of different kinds and alone again, then a relative of the input, on one parser
+			r := rng.Fork(i).Fork(7)
+			b1, b2 := sp(r.base()), sp(r.base())
+			c.seqIndependent(func() url.Parser { return url.NewParser() }, defaultCfg.Desc,
+				[]seqStep{{nil, input}, {b1, input}, {b2, input}, {nil, input}, {b1, input}, {nil, r.mutate(input)}, {b2, r.relRef()}, {b1, input}}, "call-sequences", i)
+		}
 	})
 }
 
